@@ -74,6 +74,17 @@ CHECKS = {
         design_ref="DESIGN.md section 5 C06",
         note="Structure is decided by the specification; bit-level primitives are delegated to reference crates; the "
              "independent codec is trusted."),
+    "C07": dict(
+        technique="TLA+ KeyWrap model (symbolic ECIES) with every behaviour replayed on real keys; TLA+ TraceFresh history spec "
+                  "validating recorded (key, nonce, ephemeral) creations across processes; EncWriter.OnlyCipherCellsBelow + byte scan",
+        text="TLC enumerates every recipient sequence and candidate key list and the real reader must open exactly when the "
+             "model says so; the creation history of archives made with identical inputs in one process and in several "
+             "processes is validated by TLC against a specification that rejects any reuse of the symmetric key, the "
+             "archive nonce or the ephemeral public key; TLC checks that only cipher/tag cells pass the encryption writer "
+             "and the real archives' bytes after the header are scanned for name and content markers.",
+        design_ref="DESIGN.md section 5 C07",
+        note="Entropy quality itself is outside a finite model: the history check catches constant/per-process seeds. "
+             "Under compression only names and incompressible contents are scanned."),
     "C08": dict(
         technique="TLA+ FaultGrammar model: TLC enumerates every set of field/value-class mutations and every operation history; "
                   "behaviours concretised (valid cryptography around crafted plaintext) and run on the real code with panics, process deaths, time and allocation observed",
